@@ -617,6 +617,10 @@ func (s *SecureChannel) readChunk() (*MessageChunk, error) {
 	return m, nil
 }
 
+// maxSequenceNumberGap is the largest number of sequence numbers the peer may
+// skip between two chunks.
+const maxSequenceNumberGap = 1 << 16
+
 // checkSequenceNumber rejects a verified chunk whose sequence number does not
 // come after the one of the previously accepted chunk, i.e. a chunk that was
 // replayed or re-ordered on the wire.
@@ -624,13 +628,21 @@ func (s *SecureChannel) readChunk() (*MessageChunk, error) {
 // The sender increments the number for every chunk it sends on the channel,
 // independent of the security token in use, and wraps it around before it
 // reaches MaxUint32-1024 to a value below 1024 (OPC UA Part 6, 6.7.2.4). Gaps
-// are tolerated since a sender may drop a numbered chunk before writing it.
+// are tolerated since a sender may drop a numbered chunk before writing it,
+// but only up to maxSequenceNumberGap: after a wrap-around every chunk from
+// before it would otherwise be accepted a second time.
 func (s *SecureChannel) checkSequenceNumber(n uint32) error {
 	const wrapAfter = math.MaxUint32 - 1024
 
-	if s.recvSeqSet && n <= s.recvSeq {
+	if s.recvSeqSet {
 		wrapped := s.recvSeq >= wrapAfter && n < 1024
-		if !wrapped {
+
+		// A number far ahead of the last one does not come from a gap:
+		// after the numbering has wrapped around, that is a chunk which
+		// was sent before the wrap-around.
+		stale := n > s.recvSeq && n-s.recvSeq > maxSequenceNumberGap
+
+		if !wrapped && (n <= s.recvSeq || stale) {
 			return ua.StatusBadSequenceNumberInvalid
 		}
 	}
